@@ -173,7 +173,13 @@ func solveAll(x *Exec, obligs []*Oblig, workDir string, timeoutS, par int) []ins
 		go func() {
 			defer wg.Done()
 			defer func() { <-sem }()
-			r := solveQuery(file, timeoutS, o.Cover)
+			var r SolveResult
+			if o.Cover {
+				// vacuity guard: only a proof of unsatisfiability counts against the contract
+				r = runSolver(solvers[0], file, 2)
+			} else {
+				r = solveQuery(file, timeoutS, o.Cover)
+			}
 			r.Bytes = len(q)
 			res[i] = instResult{o, r}
 		}()
